@@ -12,12 +12,12 @@ import (
 
 // C09 - truncated or malformed streams never surface as success (fault enumeration).
 
-const ruleC09 = "a valid generated scenario plus ONE injected fault on the request or the response side: body cut at byte offset k (reader error or handler return), envelope flag byte set to any value 0-255, envelope length over/under-stated, one bit of the body flipped (compressed payloads), payload replaced by undecodable bytes, Content-Length over/under-stated, terminal status removed, data appended after the end. A quarter of the request-side faults meet a full-duplex handler that answers (whole, per frame or in chunks) before it reads the request and ignores what the read yields; for it the shape of the response is asserted (one end, nothing after it, a well-formed end after a frame cut on a streaming path). Oracle: the reference decoder re-reads the faulty bytes; if it rejects them the client outcome must be non-OK, the response must terminate and be well formed for the client protocol (for a payload cut on a streaming path: not OK and a well-formed end appended), and every message the backend got as complete must be one the client completely sent. Non-trivial = the reference rejects the faulty stream (the fault changed a flag/length or landed inside a frame); distinct by hash(client triple, backend triple, direction, fault kind, position class)."
+const ruleC09 = "a valid generated scenario plus ONE injected fault on the request or the response side: body cut at byte offset k (reader error or handler return; half of the cuts are snapped to the framing: right after an envelope prefix, at a frame start, inside a prefix, one byte short of a frame end), envelope flag byte set to any value 0-255, envelope length over/under-stated, one bit of the body flipped (compressed payloads), payload replaced by undecodable bytes, Content-Length over/under-stated, terminal status removed, data appended after the end, bytes after the JSON object inside a Connect end-of-stream frame. A quarter of the request-side faults meet a full-duplex handler that answers (whole, per frame or in chunks) before it reads the request and ignores what the read yields; for it the shape of the response is asserted (one end, nothing after it, a well-formed end after a frame cut on a streaming path). Oracle: the reference decoder re-reads the faulty bytes; if it rejects them the client outcome must be non-OK, the response must terminate and be well formed for the client protocol (for a payload cut on a streaming path: not OK and a well-formed end appended), and every message the backend got as complete must be one the client completely sent. Non-trivial = the reference rejects the faulty stream (the fault changed a flag/length or landed inside a frame); distinct by hash(client triple, backend triple, direction, fault kind, position class)."
 
 func init() { registerScenarioProp("C09", ruleC09, checkC09) }
 
 var requestFaults = []string{FaultCut, FaultCut, FaultFlag, FaultLenPlus, FaultLenMinus, FaultBitFlip, FaultGarbage, FaultCLPlus, FaultCLMinus}
-var responseFaults = []string{FaultCut, FaultCut, FaultFlag, FaultLenPlus, FaultLenMinus, FaultBitFlip, FaultGarbage, FaultCLPlus, FaultCLMinus, FaultNoStatus}
+var responseFaults = []string{FaultCut, FaultCut, FaultFlag, FaultLenPlus, FaultLenMinus, FaultBitFlip, FaultGarbage, FaultCLPlus, FaultCLMinus, FaultNoStatus, FaultEndTrail}
 
 func genFault(t *rapid.T, kinds []string) *Fault {
 	f := &Fault{Kind: rapid.SampledFrom(kinds).Draw(t, "fault_kind")}
